@@ -15,12 +15,21 @@ def _case(rng):
     N = int(rng.integers(2, 8))
     n = int(rng.integers(1, 5))
     rho = random_rho(rng, N, ["pure", "mixed", "basis"][int(rng.integers(0, 3))])
+    tiny = rng.random() < 0.2
+    if tiny:
+        # a coherent state with populations of 1e-9 .. 1e-5 on all but one state: those states still carry force
+        amp = np.sqrt(10 ** rng.uniform(-9, -5, size=N)) * np.exp(2j * np.pi * rng.random(N))
+        amp[int(rng.integers(0, N))] = 1.0
+        amp = amp / np.linalg.norm(amp)
+        rho = np.outer(amp, amp.conj())
     H = np.diag(np.sort(rng.normal(size=N)) * 0.1)
     if rng.random() < 0.5:
         # a non-diagonal electronic Hamiltonian (diabatic representation): tr(rho H) has a coherence part
         off = rng.normal(size=(N, N)) * 0.05
         H = H + np.triu(off, 1) + np.triu(off, 1).T
     FM = rng.normal(size=(N, N, n)) * 0.05
+    if tiny:
+        FM = FM * 1e4                      # steep surfaces on the barely populated states
     FM = 0.5 * (FM + np.transpose(FM, (1, 0, 2)))
     F = np.array([FM[i, i, :] for i in range(N)])
     return dict(N=N, n=n, rho=rho, H=H, FM=FM, F=F, mass=10 ** rng.uniform(0, 4, size=n))
@@ -40,11 +49,13 @@ def oracle_force(args):
     rho, H, FM = np.array(c["rho"]), np.array(c["H"]), np.array(c["FM"])
     wantp = float(np.real(np.trace(rho @ H)))
     wantf = np.real(np.einsum("ij,jix->x", rho, FM))
-    sc = float(np.max(np.abs(FM)))
+    # scale of the comparison: the size of the terms that are summed, sum_ij |rho_ij| |FM_ji| (not the largest force entry:
+    # a barely populated state on a steep surface contributes little, and must still be counted)
+    sc = float(np.max(np.einsum("ij,jix->x", np.abs(rho), np.abs(FM)))) + 1e-300
     okp = close(pot, wantp, float(np.max(np.abs(H))))
-    okf = allclose(force, wantf, sc)
+    okf = allclose(force, wantf, sc, rtol=1e-11)
     pinned = np.real(np.einsum("ii,iix->x", rho, FM))
-    return okp and okf, {"potential": pot, "force": force, "is_population_weighted_force": allclose(force, pinned, sc)}, \
+    return okp and okf, {"potential": pot, "force": force, "is_population_weighted_force": allclose(force, pinned, sc, rtol=1e-11)}, \
         {"potential": wantp, "force": wantf}, \
         "Ehrenfest force %r differs from the mean-field force -tr(rho grad H) = %r (coherence term missing)" % (force.tolist(), wantf.tolist()) \
         if not okf else ("potential differs from tr(rho H)" if not okp else "ok")
@@ -53,7 +64,7 @@ def oracle_force(args):
 def _run(spec, dt, steps):
     from mudslide.ehrenfest import Ehrenfest
     rng = np.random.Generator(np.random.PCG64(spec["model_seed"]))
-    model = SynthModel(rng, spec["N"], spec["n"], scale=0.03, gap=0.01, representation=spec.get("representation", "adiabatic"))
+    model = SynthModel(rng, spec["N"], spec["n"], scale=spec.get("scale", 0.03), gap=0.01, representation=spec.get("representation", "adiabatic"))
     rho0 = random_rho(rng, spec["N"], "pure")
     t = Ehrenfest(model, np.array(spec["x0"]), np.array(spec["p0"]), rho0, state0=spec["state"], dt=dt, max_steps=steps,
                   electronic_integration=spec.get("integ", "exp"))
@@ -100,12 +111,31 @@ def oracle_run(args):
     d2 = float(np.max(np.abs(e2 - e2[0])))
     ke = max(abs(s["kinetic"]) for s in snaps) + 1e-300
     drift_ok = d1 <= 1e-10 * ke or d2 <= 0.6 * d1
-    return (not problems) and force_ok and drift_ok, \
+    # the two electronic integrators approximate the same equation: on the same run their final density matrices differ by a
+    # discretisation error that shrinks with dt (second order -> x0.25). Judged grossly: a difference that is sizeable AND does not
+    # shrink means one of them integrates something else (this is independent of the listed force finding)
+    balance_ok, r1, r2 = True, 0.0, 0.0
+    if spec.get("integ") == "linear-rk4":
+        other = dict(spec, integ="exp")
+        o1, _ = _run(other, spec["dt"], spec["steps"])
+        o2, _ = _run(other, spec["dt"] / 2, spec["steps"] * 2)
+        r1 = float(np.max(np.abs(np.asarray(o1[-1]["density_matrix"]) - np.asarray(snaps[-1]["density_matrix"]))))
+        r2 = float(np.max(np.abs(np.asarray(o2[-1]["density_matrix"]) - np.asarray(snaps2[-1]["density_matrix"]))))
+        if r2 > 0.02 and r2 > 0.75 * r1:
+            # confirm at a third level before judging (a run through a near-degeneracy is not asymptotic at dt yet)
+            o3, _ = _run(other, spec["dt"] / 4, spec["steps"] * 4)
+            s3, _ = _run(spec, spec["dt"] / 4, spec["steps"] * 4)
+            r3 = float(np.max(np.abs(np.asarray(o3[-1]["density_matrix"]) - np.asarray(s3[-1]["density_matrix"]))))
+            balance_ok = not (r3 > 0.02 and r3 > 0.75 * r2)
+    return (not problems) and force_ok and drift_ok and balance_ok, \
         {"max_force_deviation": worst, "drift_dt": d1, "drift_dt/2": d2, "problems": problems[:2],
-         "force_ok": force_ok, "drift_ok": drift_ok, "is_population_weighted_force": is_pinned}, \
+         "force_ok": force_ok, "drift_ok": drift_ok, "is_population_weighted_force": is_pinned,
+         "balance_residual_dt": r1, "balance_residual_dt/2": r2, "balance_ok": balance_ok}, \
         {"max_force_deviation": 0.0, "drift ratio": "<= 0.6 (second order: 0.25)"}, \
         ("force used differs from -tr(rho grad H) by %.3g; " % worst if not force_ok else "") + \
-        ("energy drift %.3g at dt, %.3g at dt/2 (does not vanish with dt); " % (d1, d2) if not drift_ok else "") + "; ".join(problems)
+        ("energy drift %.3g at dt, %.3g at dt/2 (does not vanish with dt); " % (d1, d2) if not drift_ok else "") + \
+        ("final rho of linear-rk4 and exp differ by %.3g at dt and %.3g at dt/2 (does not vanish with dt); " % (r1, r2)
+         if not balance_ok else "") + "; ".join(problems)
 
 
 ORACLES = {"force": oracle_force, "run": oracle_run}
@@ -133,12 +163,12 @@ def run(ctx):
         ctx.case((c["N"], n, coh > 1e-3) if coh > 1e-3 else None,
                  {"op": "ehrenfest", "N": c["N"], "n": n, "impl_force": force, "model_spec_force": spec,
                   "model_pinned_force": pinned})
-        sc = float(np.max(np.abs(c["FM"])))
+        sc = float(np.max(np.einsum("ij,jix->x", np.abs(c["rho"]), np.abs(c["FM"])))) + 1e-300
         if not close(pot, mp_, float(np.max(np.abs(c["H"])))):
             ctx.corr_mismatch("ehrenfest.potential", c, "model %r impl %r" % (mp_, pot))
-        if allclose(force, spec, sc):
+        if allclose(force, spec, sc, rtol=1e-11):
             ctx.count("force_matches_spec")
-        elif allclose(force, pinned, sc):
+        elif allclose(force, pinned, sc, rtol=1e-11):
             ctx.pinned_match("ehrenfest-force-no-coherence", "ehrenfest.force", c,
                              "implementation matches the pinned force (no coherence term), not -tr(rho grad H)")
         else:
@@ -162,8 +192,12 @@ def run(ctx):
                     integ=["exp", "linear-rk4"][i % 2])
         if (i // 2) % 2 == 1:
             spec["representation"] = "diabatic"
+            spec["scale"] = 0.1            # strong diabatic coupling: sizeable population transfer within the run
+            spec["N"] = max(N, 3)          # (2x2 eigenvector matrices are symmetric up to signs: transposition slips hide there)
         ok, obs, req, text = oracle_run(spec)
         ctx.case(("run", N, n, spec["integ"], spec.get("representation", "adiabatic")))
+        if "balance_residual_dt" in obs:
+            ctx.monitor("max_rk4_vs_exp_final_rho_difference_at_dt/2", float(obs["balance_residual_dt/2"]))
         ctx.count("runs")
         if not ok:
             if obs.get("problems"):
@@ -174,5 +208,7 @@ def run(ctx):
             if obs.get("drift_ok") is False:
                 ctx.oracle_fail("ehrenfest-energy-drift" if (pin and obs.get("force_ok") is False) else "ehrenfest-energy-drift-other",
                                 "run", spec, obs, req, text)
+            if obs.get("balance_ok") is False:
+                ctx.oracle_fail("ehrenfest-integrators-disagree", "run", spec, obs, req, text)
             if "exception" in obs:
                 ctx.oracle_fail("ehrenfest-run", "run", spec, obs, req, text)
